@@ -1,7 +1,7 @@
 /*
  * C06: ex line commands change exactly the addressed lines (reference line editor).
  * State: NL distinct lines L1..; symbolic current line; marks a, b on symbolic lines or unset;
- * register x = two lines.  One command from {d, y x, pu x, p, =, ka, a, i, c, r file, rs y, @z}
+ * register x = two lines.  One command from {d, y x, y X, pu x, p, =, ka, a, i, c, r file, rs y, @z}
  * with an address expression from 18 forms whose numbers are symbolic digits.  Oracle: the address is
  * resolved on a model (1-based, no wrap for /pat/ and ?pat?), the command is applied to the model's
  * line array; compared: buffer, printed lines (p, =), current line, registers, and afterwards the
@@ -111,7 +111,7 @@ void harness(void)
 	}
 	/* the command */
 	c = symx_u8("cmd");
-	symx_assume(c < 12);
+	symx_assume(c < 13);
 	c = symx_conc(c);
 	addtext = c == 2 || c == 6 || c == 7 || c == 9;		/* pu, a, i, r (and c): address 0 means before the first line */
 	zero_ok = addtext || c == 4 || c == 8;	/* pu a i c r: 0 is 'before the first line'; 0= prints 0 */
@@ -122,7 +122,7 @@ void harness(void)
 		mcur = N;	/* ';' moves the current line even if the command then fails */
 	cur0 = mcur;
 	{
-		static const char *cs[] = {"d", "y x", "pu x", "p", "=", "ka", "a", "i", "c", "r rf", "rs y", "@ z"};
+		static const char *cs[] = {"d", "y x", "pu x", "p", "=", "ka", "a", "i", "c", "r rf", "rs y", "@ z", "y X"};
 		snprintf(cmd, sizeof(cmd), "%s%s", addr, cs[c]);
 	}
 	if (c == 6 || c == 7 || c == 8 || c == 10)
@@ -149,6 +149,7 @@ void harness(void)
 			mcur = a1 <= mn ? a1 : mn ? mn : 1;
 			break;
 		case 1:		/* y x */
+		case 12:	/* y X: appends to register x */
 			break;
 		case 2:		/* pu x: after the last addressed line */
 			mins(a2, mnew("R1"));
@@ -232,18 +233,20 @@ void harness(void)
 	{
 		int lnm = 0;
 		char *rx = reg_get('x', &lnm), *ry = reg_get('y', &lnm);
-		if (c == 1 && !bad) {
+		if ((c == 1 || c == 12) && !bad) {
 			char exp[64];
 			int k;
 			exp[0] = 0;
+			if (c == 12)
+				strcpy(exp, "R1\nR2\n");
 			for (k = a1; k <= a2; k++) {
 				char t[16];
 				mtext(ML[k - 1], t);
 				strcat(exp, t);
 				strcat(exp, "\n");
 			}
-			symx_assert(rx && !strcmp(rx, exp), "y x stores exactly the addressed lines");
-		} else if (!bad || (c != 0 && c != 1)) {
+			symx_assert(rx && !strcmp(rx, exp), c == 12 ? "y X appends the addressed lines to register x" : "y x stores exactly the addressed lines");
+		} else if (!bad || (c != 0 && c != 1 && c != 12)) {
 			/* (d and y with an address that does not resolve store an empty text: not covered by the property) */
 			symx_assert(rx && !strcmp(rx, "R1\nR2\n"), "register x is unchanged");
 		}
